@@ -12,11 +12,11 @@ range-checked conversions of `rusty_linter/src/core/qb_casting.rs` (`QBNumberCas
   overflow the machine type for payloads inside the BASIC ranges, so `Int` plus the range test *is* the code).
 * SINGLE and DOUBLE payloads are exact rationals (core `Rat`) **inside an explicit exact domain**
   (`inS`, `inD`): dyadic rationals whose significand fits the format (24 / 53 bits), denominator at most
-  `2^40` / `2^60`, magnitude at most `2^62`.  Every value of the domain is exactly representable in
+  `2^40` / `2^60`, magnitude at most `2^100`.  Every value of the domain is exactly representable in
   binary32 / binary64, so an IEEE operation whose exact result is again in the domain returns exactly that
   result.  Every float operation of the model returns `Res.inexact` when an operand, an intermediate
   conversion (`i64 as f32`) or the exact result leaves the domain; nothing is claimed about those
-  executions.  All in-domain values are finite and below `2^62` in magnitude, therefore the
+  executions.  All in-domain values are finite and at most `2^100` in magnitude (far below the largest binary32 number, `2^128`), therefore the
   `NotFiniteNumber` branch of `QBNumberCast`, the `Overflow` branch of `f64 → f32` and the
   "result is not finite → Overflow" branches of the float arms of `+ - * /` are not reachable in the
   model (those executions are `inexact`; the harness checks them on the real code against the property).
@@ -86,9 +86,10 @@ def inLongRange (n : Int) : Bool := decide (-2147483648 ≤ n) && decide (n ≤ 
 /-- `n` is `m * 2^j` with `m < 2^p`: its significand fits `p` bits. -/
 def sigFits (p n : Nat) : Bool := n == 0 || n % 2 ^ (n.log2 + 1 - p) == 0
 
-/-- Exact domain: dyadic (`den ∣ 2^k`), significand of `p` bits, magnitude at most `2^62`. -/
+/-- Exact domain: dyadic (`den ∣ 2^k`), significand of `p` bits, magnitude at most `2^100`
+(no code path converts an unchecked float through `as i64` any more: `fit_to_type` guards it with `< 9.0e18`). -/
 def inDom (p k : Nat) (q : Rat) : Bool :=
-  (2 ^ k % q.den == 0) && sigFits p q.num.natAbs && decide (q.num.natAbs ≤ 2 ^ 62 * q.den)
+  (2 ^ k % q.den == 0) && sigFits p q.num.natAbs && decide (q.num.natAbs ≤ 2 ^ 100 * q.den)
 
 /-- Exact domain of SINGLE (a subset of the binary32 numbers). -/
 def inS (q : Rat) : Bool := inDom 24 40 q
@@ -145,14 +146,16 @@ def fitInt (n : Int) : Res Val :=
   else if inLongRange n then .ok (.long n)
   else mkDbl (n : Rat)
 
-/-- `FitToType for f32`: `diff = self - self.round()` is exact for every binary32 number;
-`(self.round() as i64)` does not saturate below `2^62`. -/
+/-- `FitToType for f32`: `diff = self - self.round()` is exact for every binary32 number.  For a whole
+number the code has two arms: `|round| < 9.0e18` → `(round as i64).fit_to_type()` (no saturation below `2^63`),
+else `VDouble(round as f64)`.  Both are `fitInt (roundHA q)` here: `fitInt` of a whole number beyond the LONG
+range *is* the DOUBLE holding that number (`RbThm.C06.fitInt_beyond_long`), and `f32 → f64` is exact. -/
 def fitS (q : Rat) : Res Val :=
   if inS q then
     if absQ (q - (roundHA q : Rat)) > thrFitS then .ok (.sgl q) else fitInt (roundHA q)
   else .inexact
 
-/-- `FitToType for f64`. -/
+/-- `FitToType for f64` (same two arms, same remark). -/
 def fitD (q : Rat) : Res Val :=
   if inD q then
     if absQ (q - (roundHA q : Rat)) > thrFitD then .ok (.dbl q) else fitInt (roundHA q)
